@@ -1100,6 +1100,9 @@ def val_eq(I, a, b):
         hit = I.prog.find_impl('PartialEq', 'eq', rt)
         if hit and isinstance(b, Adt):
             return I.run(hit[0].func, [ref_to(a), ref_to(b)], dict(hit[1]))
+        if isinstance(b, Adt) and not a.fields and not b.fields and 'ErrorKind' in (a.ty, b.ty, a.ty.split('::')[0], b.ty.split('::')[0]):
+            # field-less std enum values (io::ErrorKind) appear as `ErrorKind::X` or as the bare variant
+            return (a.variant or a.ty.split('::')[-1]) == (b.variant or b.ty.split('::')[-1])
         if not isinstance(b, Adt) or a.ty != b.ty:
             raise Unsupported('eq of %r and %r' % (short(a), short(b)))
         if a.vidx != b.vidx:
